@@ -174,8 +174,8 @@ func genHashOps() string {
 	mergeCopies, mergeLoop := false, ".unknown "+leanStr("mergeEntries: no loop over the other entries")
 	l := me.Body.List
 	for i := 0; i+3 < len(l); i++ {
-		if sameSrc(l[i:i+4], "index := hv.valueIndex()", "selfLen := len(hv.entries)",
-			"all := make([]*HashEntry, selfLen, selfLen+len(others))", "copy(all, hv.entries)") {
+		if sameSrc(l[i:i+2], "index := hv.valueIndex()", "selfLen := len(hv.entries)") &&
+			strings.HasPrefix(src(l[i+2]), "all := make([]*HashEntry, selfLen, ") && src(l[i+3]) == "copy(all, hv.entries)" { // any capacity
 			mergeCopies = true
 		}
 	}
@@ -200,8 +200,8 @@ func genHashOps() string {
 	if len(del.Body.List) == 2 && src(del.Body.List[1]) == "return hv" {
 		if is, ok := del.Body.List[0].(*ast.IfStmt); ok && is.Else == nil && is.Init != nil &&
 			src(is.Init) == "idx, ok := hv.valueIndex()[px.ToKey(key)]" && src(is.Cond) == "ok" &&
-			sameSrc(is.Body.List, "entries := make([]*HashEntry, 0, len(hv.entries)-1)",
-				"entries = append(entries, hv.entries[:idx]...)",
+			len(is.Body.List) == 3 && strings.HasPrefix(src(is.Body.List[0]), "entries := make([]*HashEntry, 0, ") && // any capacity
+			sameSrc(is.Body.List[1:], "entries = append(entries, hv.entries[:idx]...)",
 				"return WrapHash(append(entries, hv.entries[idx+1:]...))") {
 			delShape = ".cutAtIndex"
 		}
@@ -214,7 +214,7 @@ func genHashOps() string {
 		src(dl[1]) == "deleted := make(map[int]bool, keys.Len())" &&
 		src(dl[2]) == "keys.Each(func(key px.Value) { if idx, ok := valueIndex[px.ToKey(key)]; ok { deleted[idx] = true } })" &&
 		src(dl[3]) == "if len(deleted) == 0 { return hv }" &&
-		src(dl[4]) == "entries := make([]*HashEntry, 0, len(hv.entries)-len(deleted))" &&
+		strings.HasPrefix(src(dl[4]), "entries := make([]*HashEntry, 0, ") && // any capacity
 		canon(dl[5]) == "for $i, $e := range hv.entries { if !deleted[$i] { entries = append(entries, $e) } }" &&
 		src(dl[6]) == "return WrapHash(entries)" {
 		daShape = ".markThenFilter"
